@@ -1234,6 +1234,13 @@ func (a *alertState) addEvent(t time.Time, level alert.Level) {
 	// Check for changes
 	a.changed = a.history[a.idx] != level
 
+	// Remember when the alert left the OK state even if that event is not
+	// triggered (e.g. suppressed while flapping), so that the duration of later
+	// events is not computed from a stale (or zero) firstTriggered time.
+	if a.history[a.idx] == alert.OK && level != alert.OK {
+		a.firstTriggered = t
+	}
+
 	// Add event to history
 	a.idx = (a.idx + 1) % len(a.history)
 	a.history[a.idx] = level
